@@ -55,8 +55,8 @@ def _scheme_configs(tier):
     add("par-matrix-relation-penalty", mcs={"m1": {"labels": ["s1", "s2", "s3"], "pars": ["k1", "k2", "k3"]}},
         datasets=[{"label": "d1", "mc": ["m1"], "maxis": A3, "gaxis": G3, "weight": True}],
         relations=[{"source": "s1", "target": "s2", "parameter": "rel1", "interval": [1.0, 2.0]}],
-        penalties=[{"source": "s1", "source_intervals": [[1.0, 2.0]], "target": "s3", "target_intervals": [[2.0, 3.0]],
-                    "parameter": "pen1"}])
+        penalties=[{"source": "s1", "source_intervals": [[1.0, 2.0]], "target": "s3", "target_intervals": [[3.0, 2.0]],
+                    "parameter": "pen1"}])  # one interval written (high, low)
     add("par-matrix-linked-scales", mcs={"m1": {"labels": ["s1", "s2"], "pars": ["k1", "k2"]},
                                          "m2": {"labels": ["s2"], "idx": True}},
         datasets=[{"label": "d1", "mc": ["m1"], "maxis": A3, "gaxis": [1.0, 2.0], "scale": "sc1"},
@@ -72,6 +72,10 @@ def _scheme_configs(tier):
                   {"label": "d2", "mc": ["m1"], "maxis": A3, "gaxis": G2, "group": "g2", "scale": "sc2"}],
         groups={"g2": {"link_clp": False, "residual_function": "non_negative_least_squares"}},
         expr_params={"e1": "$k1 + $k2"}, extra_params=["unused"])
+    # expression parameters used by the model, chained and declared before what they reference (multi-character labels)
+    add("expression-chain-forward", mcs={"m1": {"labels": ["s1", "s2"], "pars": ["kfast", "kslow"]}},
+        datasets=[{"label": "d1", "mc": ["m1"], "maxis": A3, "gaxis": G2, "scale": "sc1"}],
+        expr_params={"kfast": "$kmid * 2", "kmid": "$ktop + $kslow", "ktop": "$kslow * 3"}, expr_first=True)
     add("gm-order-dataset-weight", mcs={"m1": {"labels": ["s1", "s2"], "pars": ["k1", "k2"]}},
         datasets=[{"label": "d1", "mc": ["m1"], "maxis": A3, "gaxis": G3, "weight": True, "order": "gm"}])
     add("gm-order-model-weight-linked", mcs={"m1": {"labels": ["s1", "s2"], "pars": ["k1", "k2"]}},
@@ -189,6 +193,7 @@ def _run_history(cfg, rec):
                 scheme, opt = fresh_opt()
                 x0 = scheme.parameters.get_label_value_and_bounds_arrays(exclude_non_vary=True)[1]
                 pts = {"x0": x0, "x1": _sym_x(1, n_free), "x2": _sym_x(2, n_free)}
+                snap0 = snapshot(scheme)
                 seq = []
                 for i, name in enumerate(schedule):
                     if cfg["fault"] and i == 1:
@@ -203,11 +208,12 @@ def _run_history(cfg, rec):
                         finally:
                             pl.FAULT_HOOK.pop("hook", None)
                     seq.append((name, _terms(opt.objective_function(pts[name]))))
+                changed = diff_snapshots(snap0, snapshot(scheme))
                 single = {}
                 for name in sorted(set(schedule)):
                     _, o2 = fresh_opt()
                     single[name] = _terms(o2.objective_function(pts[name]))
-            return seq, single
+            return seq, single, changed
 
         for ctx, (kind, out) in core.explore(fn, rec.stats, max_paths=100):
             rec.witness_path(ctx)
@@ -215,8 +221,9 @@ def _run_history(cfg, rec):
             if kind == "exc":
                 rec.unexpected(ctx, f"objective evaluation raised {type(out).__name__}: {out}", "history:exception", wit)
                 continue
-            seq, single = out
-            items = []
+            seq, single, changed = out
+            items = [("evaluating the objective leaves the caller's parameters, data and model unchanged", z3.BoolVal(not changed),
+                      "history:inputs-modified:" + ";".join(sorted({x.split(":")[0] for x in changed}))[:80])]
             for i, (name, pen) in enumerate(seq):
                 if pen is None:
                     items.append(("injected fault propagates out of the objective", z3.BoolVal(False), "history:fault-swallowed"))
@@ -420,6 +427,7 @@ def _float_history(cfg, env):
             scheme, opt = fresh()
             x0 = np.asarray(scheme.parameters.get_label_value_and_bounds_arrays(exclude_non_vary=True)[1], dtype=float)
             pts = {"x0": x0, "x1": x0 * 1.1 + 0.05, "x2": x0 * 0.9 + 0.02}
+            snap0 = snapshot(scheme)
             seq = []
             for i, name in enumerate(["x0", "x1", "x2", "x1", "x0"]):
                 if cfg.get("fault") and i == 1:
@@ -433,11 +441,12 @@ def _float_history(cfg, env):
                     finally:
                         pl.FAULT_HOOK.pop("hook", None)
                 seq.append((name, np.asarray(opt.objective_function(pts[name]), dtype=float).copy()))
+            changed = diff_snapshots(snap0, snapshot(scheme))
             single = {}
             for name in pts:
                 _, o2 = fresh()
                 single[name] = np.asarray(o2.objective_function(pts[name]), dtype=float)
-    return seq, single
+    return seq, single, changed
 
 
 def concrete(cfg, env):
@@ -451,9 +460,11 @@ def replay(data):
     for env in (c02.salted("r1"), c02.salted("r2")):
         if cfg["kind"] == "history":
             try:
-                seq, single = _float_history(cfg, env)
+                seq, single, changed = _float_history(cfg, env)
             except Exception as ex:  # noqa: BLE001
                 return True, f"config {cfg['name']}: objective raised {type(ex).__name__}: {ex}"
+            if changed:
+                return True, f"config {cfg['name']}: evaluating the objective modified the caller's scheme: {changed[:3]}"
             for i, (name, pen) in enumerate(seq):
                 if pen.shape != single[name].shape or not np.allclose(pen, single[name], rtol=1e-9, atol=1e-12):
                     return True, (f"config {cfg['name']}: evaluation {i} (point {name}) gives {pen.tolist()} but a fresh optimizer "
